@@ -67,6 +67,7 @@ inductive Ev
   | reqClr (u : UnitId) (r : Req)
   | migrate (u : UnitId) (p : PoolId)
   | joinRet (j : UnitId) (u : UnitId)
+  | xferB (frm : UnitId) (to : UnitId)   -- resume_suspend_to within one pool: the blocked count passes from the resumed unit to the suspending one
 deriving Repr
 
 structure St where
@@ -113,7 +114,10 @@ def pushable : Loc → Bool
   | _ => false
 
 def stepPush (s : St) (p : PoolId) (u : UnitId) : Option St :=
-  if pushable (s.loc u) = true ∧ s.st u = .ready ∧ s.pool u = p ∧ (s.loc u = .blocked → s.resumed u = true) then
+  -- a resumed unit is pushed while it is still counted as blocked: the decrement follows the push, so at every
+  -- instant the unit is accounted for by `size + num_blocked` of its pool
+  if pushable (s.loc u) = true ∧ s.st u = .ready ∧ s.pool u = p ∧
+      (s.loc u = .blocked → (s.resumed u = true ∧ s.charged u = true ∧ s.chargedPool u = p)) then
     some { s with loc := upd s.loc u (.inPool p), resumed := upd s.resumed u false,
                   charged := upd s.charged u (if s.loc u = .blocked then false else s.charged u),
                   lag := upd s.lag u (if s.loc u = .blocked ∧ s.charged u = true then s.lag u + 1 else s.lag u) }
@@ -188,6 +192,17 @@ def stepDecB (s : St) (u : UnitId) (p : PoolId) : Option St :=
     else none
   else none
 
+/-- `ABTI_ythread_callback_resume_suspend_to` when both units use the same pool: no counter update at all; the
+increment that counted the resumed unit now counts the caller, which is about to store BLOCKED -/
+def stepXferB (s : St) (frm to : UnitId) : Option St :=
+  if frm ≠ to ∧ s.charged frm = true ∧ s.charged to = false ∧ s.chargedPool frm = s.pool to ∧
+      (frm, s.chargedPool frm) ∈ s.owedL ∧ (match s.loc to with | .cb _ => true | _ => false) = true ∧
+      s.loc frm ≠ .blocked then
+    some { s with owedL := (to, s.pool to) :: s.owedL.erase (frm, s.chargedPool frm),
+                  charged := upd (upd s.charged frm false) to true,
+                  chargedPool := upd s.chargedPool to (s.pool to) }
+  else none
+
 def stepResume (s : St) (u : UnitId) : Option St :=
   if s.loc u = .blocked ∧ s.st u = .blocked ∧ s.resumed u = false then some { s with resumed := upd s.resumed u true }
   else none
@@ -250,6 +265,7 @@ def step (s : St) : Ev → Option St
   | .reqClr u r => stepReqClr s u r
   | .migrate u p => stepMigrate s u p
   | .joinRet j u => stepJoinRet s j u
+  | .xferB f t => stepXferB s f t
 
 def machine : Machine St Ev := { init := init, step := step }
 
